@@ -527,3 +527,19 @@ def nontrivial(line, reply):
     if not t or t[0].startswith("#") or reply.startswith("#"):
         return None
     return " ".join(t[:3]) if t[0] in ("both_tri",) or t[0].startswith("m") else " ".join(t[:2])
+
+# --- deep theorems (second pass; modules written in their own files, wired here by the lead)
+PROOF_MODULES = PROOF_MODULES + ['Compute.Props.C11Lu', 'Compute.Props.C11LuDet', 'Compute.Lemmas.ParityLemmas', 'Compute.Props.C11Parity']
+REQUIRED_THEOREMS = REQUIRED_THEOREMS + ['Cv.C11Lu.lu_residual', 'Cv.C11Lu.lu_correct', 'Cv.C11Lu.lu_correct_iff', 'Cv.C11Lu.lu_correct_ordered', 'Cv.C11Lu.lu_multipliers_le_one', 'Cv.C11Lu.lu_residual_witness', 'Cv.C11Lu.lu_correct_matrix', 'Cv.C11Lu.lu_det', 'Cv.C11Lu.matrix_det_correct', 'Cv.C11.ipivParity_sign', 'Cv.C11.ipivParity_perm', 'Cv.C11.parity_correct_all', 'Cv.C11.parity_fuel_sufficient', 'Cv.C11.parity_never_diverges', 'Cv.C11.ipivParity_ok_iff', 'Cv.C11.det_sign_correct']
+_np = list(NOT_PROVED)
+_np[1] = 'L*L^T = A in exact arithmetic (Cholesky) - being proved separately (Props/C01Solve); P*A = L*U IS proved for every order and every input (Props/C11Lu: lu_residual, lu_correct, lu_correct_iff, lu_correct_ordered)'
+_np[2] = None
+_np[3] = None
+NOT_PROVED = [x for x in _np if x is not None]
+
+# --- deep theorems (2: Cholesky correctness)
+PROOF_MODULES = PROOF_MODULES + ['Compute.Props.C01Solve']
+REQUIRED_THEOREMS = REQUIRED_THEOREMS + ['Cv.C01Solve.cholesky_correct', 'Cv.C01Solve.cholesky_correct_real', 'Cv.C01Solve.cholesky_cells', 'Cv.C01Solve.choleskySolve_spec', 'Cv.C01Solve.cholesky_complete', 'Cv.C01Solve.cholesky_posDef']
+_np = list(NOT_PROVED)
+_np = [(None if 'L*L^T = A in exact arithmetic (Cholesky)' in str(x) else x) for x in _np]
+NOT_PROVED = [x for x in _np if x is not None]
